@@ -256,6 +256,7 @@ def _item_exec(tu, items, stop_at_decl=False):
 
     ex = PE.PrintExec(tu, heap, {'MIR_item_name': item_name, 'DLIST_MIR_item_t_next': dnext},
                       {'out_type': lambda a, e, x: 'T', '_MIR_output_data_item_els': els, 'out_func_decl': decl})
+    ex.concrete_ints = True
     return ex, heap
 
 
@@ -318,7 +319,7 @@ def _parse_decl(t):
                     return False
                 if parts and parts[-1] == '':
                     parts = parts[:-1]          # trailing comma
-                return bool(parts) and all(well(p) for p in parts)
+                return all(well(p) for p in parts)   # `{}` initialises an empty (zero-length) member
             return bool(s) and '{' not in s and '}' not in s and top_split(s) is not None and len(top_split(s)) == 1
         if members is not None:
             if not (init.startswith('{') and init.endswith('}')):
@@ -335,6 +336,7 @@ def _parse_decl(t):
 
 
 def rf59(run, exhaustive=False):
+    import re
     rule = 'RF59'
     run.rule(rule, 'mir2c out_item, executed abstractly over model modules (single scalar / array / bss items and sections of named + '
                    'anonymous data, bss and ref items): every named item or section prints exactly one well-formed C declaration with at '
@@ -360,6 +362,7 @@ def rf59(run, exhaustive=False):
         ('bss section', [bss(1, 8), bss(0, 8), func()], False),
         ('array then scalar then named scalar', [data(1, 2), data(0, 1), data(1, 1)], False),
         ('bss first then data', [bss(1, 2), data(0, 1), func()], True),
+        ('scalar, empty bss, scalar', [data(1, 1), bss(0, 0), data(0, 1), func()], False),
     ]
     if exhaustive:
         # every section of 1..4 items over {i64 scalar, u8[2], bss 3, ref}, followed by a function, a named scalar or the module end
@@ -424,6 +427,11 @@ def rf59(run, exhaustive=False):
                     elif inits is not None and members is not None and len(inits) != len(members):
                         why = 'section `%s`: %d members but %d initialiser elements (`%s`)' % (title, len(members), len(inits),
                                                                                              ' '.join(txt.split())[:120])
+                    elif members is not None and any(items[j - 1]['->item_type'] == it['MIR_bss_item'] and
+                                                    not re.search(r'\[%d\]$' % items[j - 1]['->u.bss->len'], members[k_])
+                                                    for k_, j in enumerate(sec)):
+                        why = ('section `%s`: a bss member is not declared as an array of its length (%s): an empty bss item must take no '
+                               'place, MIR gives it none' % (title, members))
                     elif mixed and len(sec) > 1 and 'packed' not in (attr or ''):
                         why = ('section `%s` has members of different sizes and its struct is not packed: the C compiler inserts padding, '
                                'MIR places the items without gaps, so offsets from the section start differ' % title)
@@ -552,4 +560,95 @@ def rf61(run):
                           'on the rest of the prototype: %s — the decoration is taken from another parameter (operand index and parameter '
                           'index differ by 2 + number of results)' % (k, t, '; '.join('`%s` for %d result(s), parameters %s' % (a, b[0], b[1])
                                                                                    for a, b in sorted(ex_.items()))), line=stmts[0]['l'])
+    return n
+
+
+# ---------------------------------------------------------------------------------------------
+# RF92: immediates that have no plain C literal are special-cased by out_op
+# ---------------------------------------------------------------------------------------------
+
+def rf92(run):
+    from lib import printexec as PE
+    rule = 'RF92'
+    run.rule(rule, 'mir2c out_op, executed abstractly per operand mode: the text chosen for the immediate -2^63 differs from the plain decimal '
+                   'conversion used for other integers (its decimal form is not an int64_t constant in C), and the texts chosen for NaN, '
+                   '+inf and -inf float / double / long double immediates differ from the %g conversion used for finite values (%g prints '
+                   '`nan` / `inf`, which the C compiler rejects)')
+    tu = run.tu('mir2c')
+    f = tu.func('out_op')
+    run.functions_analysed.add(('mir2c', 'out_op'))
+    modes = dict(tu.enum('MIR_op_mode_t'))
+
+    def text(mode, key, val):
+        ex = PE.PrintExec(tu, {}, {}, {})
+        env = {'op.mode': modes[mode], key: val}
+        ex.run(f.body, env)
+        return ex.text()
+    n = 0
+    plain = text('MIR_OP_INT', 'op.u.i', 5)
+    mn = text('MIR_OP_INT', 'op.u.i', -(1 << 63))
+    n += 1
+    ok = plain != mn and bool(mn)
+    run.ob(rule, ('int min',), ok, {'text for 5': plain, 'text for -2^63': mn})
+    if not ok:
+        run.violation(rule, f, 'immediate -2^63', 'out_op prints the immediate -9223372036854775808 with the plain decimal conversion (`%s`): in C that '
+                      'token sequence is the negation of a constant that does not fit int64_t (gcc: __int128), so a variadic call passes two '
+                      'words and an overload-free context silently changes type' % plain, line=f.line)
+    for mode, key in (('MIR_OP_FLOAT', 'op.u.f'), ('MIR_OP_DOUBLE', 'op.u.d'), ('MIR_OP_LDOUBLE', 'op.u.ld')):
+        try:
+            fin = text(mode, key, 1.5)
+            special = {nm: text(mode, key, v) for nm, v in (('nan', float('nan')), ('+inf', float('inf')), ('-inf', float('-inf')))}
+        except F.AnalysisBroken as ex_:
+            raise F.AnalysisBroken('out_op %s: %s' % (mode, ex_))
+        for nm, t in special.items():
+            n += 1
+            ok = t != fin and bool(t)
+            run.ob(rule, (mode, nm), ok, {'mode': mode, 'value': nm, 'text': t, 'text for a finite value': fin})
+            if not ok:
+                run.violation(rule, f, '%s immediate %s' % (mode[7:].lower(), nm), 'out_op prints a %s immediate of mode %s with the conversion used for '
+                              'finite values (`%s`): printf writes `nan` / `inf`, which is not a C constant, so the translation unit is '
+                              'rejected' % (nm, mode, fin), line=f.line)
+    return n
+
+
+# ---------------------------------------------------------------------------------------------
+# RF93: data bytes never end up inside a C comment they can close
+# ---------------------------------------------------------------------------------------------
+
+def rf93(run):
+    rule = 'RF93'
+    run.rule(rule, '_MIR_output_data_item_els (C mode, used by mir2c): the string form of u8 data is printed inside `/* … */` only under a test '
+                   'that the bytes do not contain `*/`; MIR_output_str leaves `*` and `/` unescaped, so such a string would end the comment '
+                   'and the rest of it would be compiled')
+    tu = run.tu('mir')
+    f = tu.func('_MIR_output_data_item_els')
+    run.functions_analysed.add(('mir', f.name))
+    opens = []
+    for x in f.walk():
+        if x['k'] == 'CallExpr' and x.get('callee') == 'fprintf' and any(y['k'] == 'StringLiteral' and '/*' in y['s'] for y in F.walk(x)):
+            opens.append(x)
+    if not opens:
+        raise F.AnalysisBroken('_MIR_output_data_item_els: the C comment opener was not found')
+    n = 0
+    for x in opens:
+        guard = None
+        cur = x['i']
+        while cur is not None:
+            p_ = f.parent.get(cur)
+            if p_ is None:
+                break
+            pn = f.nodes[p_]
+            if pn['k'] == 'IfStmt' and any(y is x for y in F.walk(pn['c'][1])):
+                guard = pn
+                break
+            cur = p_
+        txt = F.src(guard['c'][0]) if guard is not None else ''
+        lits = [y['s'] for y in F.walk(guard['c'][0]) if y['k'] == 'StringLiteral'] if guard is not None else []
+        ok = '*/' in lits and ('strstr' in txt or 'memmem' in txt)
+        n += 1
+        run.ob(rule, (x['l'],), ok, {'site': '%s:%d' % (f.relfile(), x['l']), 'guard': txt[:140]})
+        if not ok:
+            run.violation(rule, f, 'string bytes inside a C comment', 'the string form of the data is printed between `/*` and `*/` without a test '
+                          'that it does not contain `*/`: a data string such as "a*/b" closes the comment and the C compiler rejects (or worse, '
+                          'compiles) the remainder', line=x['l'])
     return n
